@@ -481,6 +481,27 @@ def pickleSig (s : Sig) : Except Err Sig := do
   let m ← pickleMH mh.mh
   pure (mkSig (Sk.ofMH m) (nameOf s) (filenameOf s))
 
+/-- `SourmashSignature.from_params(ComputeParameters(ksizes=ks, dna=True, ...))`: ONE signature holding one
+    (empty) sketch per k-mer size, in the default envelope -/
+def fromParams (ks : List Nat) (scaled num seed : Nat) (track : Bool) : Sig :=
+  { Sig.default with sketches := ks.map (fun k => Sk.ofMH (MH.new scaled k 1 seed track num)) }
+
+/-- `SourmashSignature.__eq__` = `signature_eq` = Rust `PartialEq for Signature`: class, email, hash_function,
+    filename, name, and the md5 of the FIRST sketch of each (license and version are not compared;
+    indexing an empty sketch list panics) -/
+def sigEq (a b : Sig) : Except Err Bool :=
+  match a.sketches, b.sketches with
+  | x :: _, y :: _ =>
+    .ok (decide (a.cls = b.cls) && decide (a.email = b.email) && decide (a.hashFunction = b.hashFunction) &&
+         decide (a.filename = b.filename) && decide (a.name = b.name) && decide (x.md5sum.2 = y.md5sum.2))
+  | _, _ => .error .panic
+
+/-- `MinHash.__eq__`: the two `__getstate__` tuples are equal -/
+def mhEq (a b : MH) : Except Err Bool := do
+  let sa ← getState a
+  let sb ← getState b
+  pure (decide (sa = sb))
+
 /-! ### `_detect_input_type` -/
 
 inductive SigInput where
@@ -565,6 +586,22 @@ def loadFromJson (i : LoadIn) (ksize : Option Nat) (selectMoltype : Option Strin
     | .path => run i.fileDoc
     | .fileLike => run i.bufDoc
     | .buffer => run i.bufDoc
+
+/-- `load_signatures_from_json(open(path, "rt"))`: a text-mode file object to which the caller keeps no
+    other reference.  The function rebinds `data = data.buffer`; the wrapper is then unreferenced, CPython
+    finalises it, which closes the buffer, and `data.read()` raises `ValueError: read of closed file`
+    (swallowed without `do_raise`).  With another reference alive (`with open(..) as fp:`) it is `loadFromJson`. -/
+def loadFromTextTemp (i : LoadIn) (ksize : Option Nat) (selectMoltype : Option String) (doRaise : Bool) :
+    Except Err (List Sig) :=
+  if Gen.textWrapperDropped then (if doRaise then .error .value else .ok [])
+  else loadFromJson i ksize selectMoltype doRaise
+
+/-- `load_one_signature_from_json`: `load_signatures_from_json` WITHOUT `do_raise` (errors are swallowed),
+    then exactly one result or ValueError -/
+def loadOne (i : LoadIn) (ksize : Option Nat) (selectMoltype : Option String) : Except Err Sig :=
+  match loadFromJson i ksize selectMoltype false with
+  | .ok [s] => .ok s
+  | _ => .error .value
 
 /-- does the JSON text of a document contain the sniffed literal: only string *values* can
     (keys, punctuation, numbers and escape sequences cannot produce it) -/
